@@ -3,6 +3,7 @@ import Momo.Proof.LedgerPool
 import Momo.Proof.LedgerVal
 import Momo.Props.C09
 import Momo.Proof.HTLedgerCons
+import Momo.Proof.MMLedgerSys
 /-!
 # C03 — Every byte and every element is released exactly once, never touched after
 
@@ -418,3 +419,101 @@ example : Consistent exCfg id (run exCfg id (Sys.init exCfg) exOps).a :=
     decide +kernel)).1
 
 end Momo.HTL
+
+
+/-!
+## C03 for `momo::HashMultiMap`: the ledger of whole histories under every fault schedule
+
+`Momo/Model/MMLedger.lean` is a ledger layer over the C08 model of the multimap: the key table is the ledger layer of the hash
+family (`Momo.HTL`, above) used unchanged; next to every key the value array (`VArr` of the C08 model: none | fast pool k | heap
+array of capacity c) carries its books - the value objects in storage order and the storage block of the heap `momo::Array`
+(`capacity * sizeof(Value)` bytes); the container also holds the `ValueCrew::Data` block and the buffers of the value-array
+pools (observed traffic, as in `HTL`; `Clear` / destruction / a failed copy return all of them).  Every operation - `Add(key,
+value)`, `Add(keyIter, value)`, `InsertKey`, `Remove(keyIter, index)`, `Remove(pairFilter)`, `RemoveValues`, `RemoveKey`,
+`ResetKey`, `Clear`, copy assignment, move assignment, `Swap`, the destructor - emits its manager calls and its key / value
+object events in program order (order of allocation and release inside `ArrayBucket::AddBackCrt` / `RemoveBack` as listed in
+the model's header), for an explicit fault record: functors, bucket array, `BucketParams`, crews, key copy (key table), refused
+pool block, refused heap storage, throwing value creator / copy, refused `Array::Shrink`, throwing value assignment, a copy
+stopping after any number of values / keys.  Universally quantified: configuration `cfg` (any key table description, relocation
+categories of key and value, `maxFastCount`, sizes), hash function, history, fault records, pool traffic.
+Lemmas: `Momo/Proof/MMLedger*.lean`.
+-/
+namespace Momo.MML
+open Momo Momo.HT Momo.Ledger Momo.HTL
+
+/-- **C03, hash multimap, every history under every fault schedule: the event list is disciplined and the ledger is exactly what
+the two containers own.** "Across any history of operations …, including operations that exit with an exception, every block
+obtained from the … memory manager is given back exactly once, with the size it was requested with … Every element object that is
+constructed is destroyed exactly once and is never used after destruction or relocation."  The verified monitor `Ledger.run`
+accepts the complete event list (hence `Disciplined`), and AT EVERY MOMENT it holds exactly the books of A and B: bucket arrays,
+`BucketParams`, both crews, the heap array of every big value array with its byte size, pool buffers; one object per stored key and
+per stored value. -/
+theorem C03_multimap_history_ledger (cfg : Cfg) (hf : Nat → Nat) (ops : List OpT) :
+    ∃ s, Ledger.run Ledger.St.init (run cfg hf (Sys.init cfg) ops).w.evs = some s ∧
+      Holds s ((run cfg hf (Sys.init cfg) ops).blocks cfg) (run cfg hf (Sys.init cfg) ops).elems ∧
+      Disciplined (run cfg hf (Sys.init cfg) ops).w.evs :=
+  let ⟨s, h1, h2⟩ := (run_ok cfg hf ops _ (sysOK_init cfg)).led.acc
+  ⟨s, h1, h2, disciplined_of_run h1⟩
+
+/-- **… and destruction leaves nothing**: after any history, once B and A are destroyed (`~HashMultiMap`: `pvClearValueArrays`,
+`ValueCrew::Destroy`, `~HashMap`), the monitor's verdict on the whole event list is "accepted and clean". -/
+theorem C03_multimap_history_balanced (cfg : Cfg) (hf : Nat → Nat) (ops : List OpT) :
+    Ledger.balanced (finish cfg (run cfg hf (Sys.init cfg) ops)).evs = true :=
+  led_nil_balanced (finish_clean cfg _ (run_ok cfg hf ops _ (sysOK_init cfg)))
+
+/-- **`Clear` leaves zero outstanding blocks and zero live elements** (of that container, besides the two crew blocks a live
+container keeps until its destruction; `HashMultiMap::Clear` always shrinks the key table): in every reachable state the books of A
+after `Clear()` list the key table's crew and the value crew and nothing else - no bucket array, no `BucketParams`, no heap array,
+no pool buffer, no key and no value object - and the monitor holds exactly the books (`C03_multimap_history_ledger`). -/
+theorem C03_multimap_clear (cfg : Cfg) (hf : Nat → Nat) (ops : List OpT) :
+    (step cfg hf (run cfg hf (Sys.init cfg) ops) .clear).1.a.blocks cfg =
+      (optL (run cfg hf (Sys.init cfg) ops).a.kt.crew).map (fun b => (b, cfg.h.mgr, cfg.h.csz)) ++
+      (optL (run cfg hf (Sys.init cfg) ops).a.vcrew).map (fun b => (b, cfg.h.mgr, cfg.vsz)) ∧
+    (step cfg hf (run cfg hf (Sys.init cfg) ops) .clear).1.a.elems = [] :=
+  clearL_books cfg _ _ (run_ok cfg hf ops _ (sysOK_init cfg)).a
+
+/-- **one value array through every transition of `ArrayBucket::AddBackCrt`** (none -> fast -> bigger fast -> heap -> grown heap),
+under every fault: a failure leaves the monitor holding exactly what it held (a heap storage obtained before a throwing creator
+has been given back); a success leaves it holding the array's new heap block (if any) and new value objects, plus the frame. -/
+theorem C03_multimap_array_add (cfg : Cfg) (b : VB) (v : Nat) (f : VFlt) (w : W) (FB : List Blk) (FE : List Nat)
+    (h : Led w (hbk cfg b ++ FB) (b.objs ++ FE)) : VPost cfg b FB FE (vbAdd cfg b v f w) :=
+  vbAdd_led cfg b v f w FB FE h
+
+/-- **… and of `RemoveBack` / `Remove(iter)`** (fast: the last object is destroyed; heap: destroyed, then `Array::Shrink` allocates
+the smaller storage, relocates, frees the old one - a refused allocation is swallowed; last value: `pvRemoveAll` destroys the
+values and frees the heap storage). -/
+theorem C03_multimap_array_remove (cfg : Cfg) (b : VB) (i : Nat) (f : VFlt) (w : W) (FB : List Blk) (FE : List Nat)
+    (h : Led w (hbk cfg b ++ FB) (b.objs ++ FE)) : VPost cfg b FB FE (vbRemoveAt cfg b i f w) :=
+  vbRemoveAt_led cfg b i f w FB FE h
+
+/-! Non-vacuity: Open8-like key table, nothrow-move keys and values, `maxFastCount = 2`: key 1 gains five values (fast 1 -> fast
+2 -> heap of capacity 4 -> grown heap), with a refused heap storage and a throwing creator on the way; a second key; a copy
+assignment that fails at the second key; removals that shrink and finally release the heap array; destruction. -/
+def exCfg : Cfg :=
+  { h := { sp := { maxCount := 7, quad := true, fullFrom := 7, unlimited := false, bound := .none, cap := .base, baseShift := true,
+                   logStart := 1, nothrowReloc := true },
+           cat := .nmove, hdr := 24, bsz := 120, psz := 8, csz := 16 },
+    mf := 2, vcat := .nmove, isz := 8, vsz := 200 }
+def exOps : List OpT :=
+  [{ op := .add false 1 0 10 {}, pa := { gets := [414] } }, { op := .add false 1 0 11 {} },
+   { op := .add false 1 0 12 { v := { heap := true } } }, { op := .add false 1 0 12 { v := { create := true } } },
+   { op := .add false 1 0 12 {} }, { op := .add false 1 0 13 {} }, { op := .add false 1 0 14 {} },
+   { op := .add false 2 0 20 { k := { create := true } } }, { op := .add false 2 0 20 {} },
+   { op := .copyTo {} (fun n => if n = 1 then { v := { create := true } } else {}) }, { op := .copyTo {} (fun _ => {}) },
+   { op := .removeValue 1 0 {} }]
+
+/-- key 1 holds four values in a heap array of capacity 8 (64 bytes); B is a copy (heap array of capacity 4 = 32 bytes) -/
+example : ((getV (run exCfg id (Sys.init exCfg) exOps).a.vbs 1).arr.rep, (getV (run exCfg id (Sys.init exCfg) exOps).a.vbs 1).heap.map (·.2),
+    (getV (run exCfg id (Sys.init exCfg) exOps).b.vbs 1).heap.map (·.2)) = (.heap 8, some 64, some 40) := by decide +kernel
+/-- the monitor has accepted all events of this history and holds exactly the blocks and objects of the books … -/
+example : (Ledger.run Ledger.St.init (run exCfg id (Sys.init exCfg) exOps).w.evs).map (fun s => s.outstanding) =
+    some (((run exCfg id (Sys.init exCfg) exOps).blocks exCfg).length, (run exCfg id (Sys.init exCfg) exOps).elems.length) := by
+  decide +kernel
+example : (((run exCfg id (Sys.init exCfg) exOps).blocks exCfg).length, (run exCfg id (Sys.init exCfg) exOps).elems.length) = (11, 15) := by
+  decide +kernel
+/-- … and after destruction nothing -/
+example : Ledger.balanced (finish exCfg (run exCfg id (Sys.init exCfg) exOps)).evs = true := by decide +kernel
+/-- the monitor is not vacuous on such traces: dropping the last event (a crew block is not given back) is a leak -/
+example : Ledger.balanced (finish exCfg (run exCfg id (Sys.init exCfg) exOps)).evs.dropLast = false := by decide +kernel
+
+end Momo.MML
